@@ -343,8 +343,8 @@ def run_e2e_stage(ctx, cases, seen, tag="e2e"):
                 bad.append((n, "phantom", "the record %s is emitted for the frame from %s, which has no well-formed header chain of "
                                           "the scan (it ends before its transport header)" % (got, u.get("ip"))))
             else:
-                bad.append((n, "extra", "an additional record %s appears that no injected frame accounts for (a frame without a "
-                                        "complete header chain was decoded with bytes left over from an earlier frame)" % got))
+                bad.append((n, "extra", "an additional record %s appears that no injected frame accounts for: its fields are not "
+                                        "those of one frame of the history (bytes or decoder state of another frame)" % got))
         for n, cls, what in bad[:1]:
             key = "%s:e2e:%s" % (cls, kind)
             if key in seen:
